@@ -20,10 +20,12 @@ DECL = """ex:decl sh:declare [ sh:prefix "ex" ; sh:namespace "http://ex.test/"^^
 """
 
 DATA = PFX + """ex:a a ex:C ; ex:p 1 ; ex:q "x" . ex:b a ex:C ; ex:p 1, 2 . ex:c a ex:D ; ex:flag true , "1"^^xsd:boolean .
+ex:E rdfs:subClassOf ex:C . ex:e a ex:E ; ex:p 1 ; ex:q "y" .
 """
 SHAPES_BASIC = PFX + """ex:S a sh:NodeShape ; sh:targetClass ex:C ; sh:property [ sh:path ex:p ; sh:maxCount 1 ; sh:minCount 1 ] ;
   sh:property [ sh:path ex:q ; sh:minCount 1 ] .
 ex:B a sh:NodeShape ; sh:targetClass ex:D ; sh:property [ sh:path ex:flag ; sh:hasValue true ] .
+ex:K a sh:NodeShape ; sh:targetNode ex:e ; sh:class ex:C .
 """
 SHAPES_FN = PFX + DECL + """
 ex:twice a sh:SPARQLFunction ; sh:parameter [ sh:path ex:op1 ; sh:datatype xsd:integer ] ; sh:returnType xsd:integer ;
@@ -107,6 +109,10 @@ EDITS = [
     # fix the data
     {"op": "edit", "name": "d", "update": ["PREFIX ex: <http://ex.test/> DELETE DATA { ex:b ex:p 2 }"]},
     {"op": "edit", "name": "d", "update": ["PREFIX ex: <http://ex.test/> INSERT DATA { ex:b ex:q \"a long value\" }"]},
+    # the class hierarchy inside the data graph (sh:class and sh:targetClass walk rdfs:subClassOf in it)
+    {"op": "edit", "name": "d", "update": ["PREFIX ex: <http://ex.test/> PREFIX rdfs: <http://www.w3.org/2000/01/rdf-schema#> DELETE DATA { ex:E rdfs:subClassOf ex:C }"]},
+    {"op": "edit", "name": "d", "update": ["PREFIX ex: <http://ex.test/> PREFIX rdfs: <http://www.w3.org/2000/01/rdf-schema#> DELETE DATA { ex:E rdfs:subClassOf ex:C } ; INSERT DATA { ex:E rdfs:subClassOf ex:D }"]},
+    {"op": "edit", "name": "d", "update": ["PREFIX ex: <http://ex.test/> PREFIX rdfs: <http://www.w3.org/2000/01/rdf-schema#> INSERT DATA { ex:D rdfs:subClassOf ex:C }"]},
     # replace a graph object by a new one with other content (id reuse is up to CPython)
     {"op": "replace", "name": "s_basic"},
 ]
